@@ -372,7 +372,8 @@ func alphabet(paths []string, withEnsure bool) []op {
 }
 
 // exhaustive runs every sequence of exactly L ops over the alphabet, in parallel.
-func exhaustive(r *lib.Run, label string, alpha []op, universe *universe, L int, workers int) {
+// With stride > 1 only the indices congruent to phase are run (a seeded systematic sample).
+func exhaustive(r *lib.Run, label string, alpha []op, universe *universe, L int, workers int, stride, phase int64) {
 	total := int64(1)
 	for i := 0; i < L; i++ {
 		total *= int64(len(alpha))
@@ -390,6 +391,9 @@ func exhaustive(r *lib.Run, label string, alpha []op, universe *universe, L int,
 			ops := make([]op, L)
 			var nontriv, seqs, evals, selfMoves, selfMismatch int64
 			for idx := lo; idx < hi; idx++ {
+				if stride > 1 && idx%stride != phase {
+					continue
+				}
 				x := idx
 				hasInsert, hasMove := false, false
 				for i := L - 1; i >= 0; i-- {
@@ -559,14 +563,22 @@ func main() {
 	alphaM := alphabet(pathsM, true)
 	r.Note("alphabets", map[string]interface{}{"S_paths": pathsS, "S_ops": len(alphaS), "M_paths": pathsM, "M_ops": len(alphaM)})
 
-	maxS, maxM := r.Pick(4, 5), r.Pick(3, 4)
+	maxM := r.Pick(3, 4)
+	if r.Thorough() {
+		workers = 8
+	}
 	for L := 1; L <= maxM; L++ {
-		exhaustive(r, "M", alphaM, uSmall, L, workers)
+		exhaustive(r, "M", alphaM, uSmall, L, workers, 1, 0)
 	}
-	for L := maxM + 1; L <= maxS; L++ { // shorter S-sequences are contained in the M enumeration
-		exhaustive(r, "S", alphaS, uSmall, L, workers)
+	if r.Quick() {
+		// shorter S-sequences are contained in the M enumeration
+		exhaustive(r, "S", alphaS, uSmall, 4, workers, 1, 0)
+		r.Note("bounded_exhaustive", "all sequences of <=3 ops over alphabet M (54 ops) and all sequences of 4 ops over alphabet S (28 ops)")
+	} else {
+		// 28^5 = 17.2M sequences: every 8th one, the phase chosen by the seed
+		exhaustive(r, "S5-sampled", alphaS, uSmall, 5, workers, 8, r.Seed%8)
+		r.Note("bounded_exhaustive", "all sequences of <=4 ops over alphabet M (54 ops); every 8th sequence of 5 ops over alphabet S (28 ops)")
 	}
-	r.Note("bounded_exhaustive", fmt.Sprintf("all sequences of <=%d ops over alphabet M (54 ops) and of %d..%d ops over alphabet S (28 ops)", maxM, maxM+1, maxS))
 	r.Sample(map[string]interface{}{"exhaustive_example": []string{alphaM[0].String(), alphaM[len(alphaM)-3].String(), alphaM[13].String()}})
 
 	// random long sequences
